@@ -3,6 +3,7 @@ package props
 import (
 	"bytes"
 	"fmt"
+	"math/rand/v2"
 	"slices"
 
 	"github.com/c2FmZQ/ech"
@@ -62,7 +63,28 @@ func genC06(env *core.Env, emit func(core.Case)) {
 			}
 		}
 		p2.Enc = &e2
-		s2 := gen.Seal(plan.OuterBase, 1, key, suite, e2.Body(), s1.Sender, 0x0303)
+		base2 := plan.OuterBase
+		switch kind {
+		case "P": // the retried outer hello no longer names the config's public name
+			b := *plan.OuterBase
+			b.Exts = slices.Clone(b.Exts)
+			for i, e := range b.Exts {
+				if e.Type == 0 {
+					b.Exts[i] = gen.SNI("elsewhere.example")
+				}
+			}
+			base2 = &b
+		case "V": // the retried outer hello no longer offers TLS 1.3
+			b := *plan.OuterBase
+			b.Exts = slices.Clone(b.Exts)
+			for i, e := range b.Exts {
+				if e.Type == 43 {
+					b.Exts[i] = gen.Versions(0x0303, 0x0302)
+				}
+			}
+			base2 = &b
+		}
+		s2 := gen.Seal(base2, 1, key, suite, e2.Body(), s1.Sender, 0x0303)
 		c.second[kind] = s2.Rec
 		c.inner2[kind] = p2.Expected(s2.Outer, 0x0303)
 		if kind == "G" {
@@ -85,6 +107,7 @@ func genC06(env *core.Env, emit func(core.Case)) {
 		return c
 	}
 	ctxG, ctxM, ctxA := mk("G"), mk("M"), mk("A")
+	ctxP, ctxV := mk("P"), mk("V")
 	plainHello := func() *c06ctx {
 		h := gen.BaseHello(r)
 		h.Version = 0x0303
@@ -92,10 +115,10 @@ func genC06(env *core.Env, emit func(core.Case)) {
 		rec := h.Record(0x0301)
 		return &c06ctx{keys: echKeys(key), first: rec, want1: h.Record(0x0303)}
 	}()
-	clientEv := []string{"G", "N", "I", "S", "E", "B", "M", "A", "c", "h", "d"}
+	clientEv := []string{"G", "N", "I", "S", "E", "B", "M", "A", "P", "V", "c", "h", "d"}
 	backendEv := []string{"SH", "HRR", "ccs", "data"}
 	all := append(slices.Clone(clientEv), backendEv...)
-	classOf := map[string]string{"N": "missing", "I": "illegal", "S": "illegal", "E": "illegal", "B": "decrypt", "M": "illegal", "A": "illegal"}
+	classOf := map[string]string{"N": "missing", "I": "illegal", "S": "illegal", "E": "illegal", "B": "decrypt", "M": "illegal", "A": "illegal", "P": "illegal", "V": "illegal"}
 	sid := plan.OuterBase.SID
 	backendRec := map[string][]byte{"SH": gen.ServerHelloRecord(r, false, sid), "HRR": gen.ServerHelloRecord(r, true, sid),
 		"ccs": gen.Record(20, 0x0303, []byte{1}), "data": gen.Record(23, 0x0303, gen.RandBytes(r, 40))}
@@ -115,6 +138,14 @@ func genC06(env *core.Env, emit func(core.Case)) {
 					ctx = ctxA
 					break
 				}
+				if e == "P" {
+					ctx = ctxP
+					break
+				}
+				if e == "V" {
+					ctx = ctxV
+					break
+				}
 				if e == "G" || e == "B" {
 					break
 				}
@@ -129,6 +160,10 @@ func genC06(env *core.Env, emit func(core.Case)) {
 				return ctxM.second["M"], ctxM
 			case "A":
 				return ctxA.second["A"], ctxA
+			case "P":
+				return ctxP.second["P"], ctxP
+			case "V":
+				return ctxV.second["V"], ctxV
 			}
 			return ctxG.second[e], ctxG
 		}
@@ -136,7 +171,7 @@ func genC06(env *core.Env, emit func(core.Case)) {
 		if accepted {
 			s.Register(ctx.first)
 			for _, e := range hist {
-				if b, c := recOf(e); c != nil && (e == "G" || e == "B" || e == "M" || e == "A") {
+				if b, c := recOf(e); c != nil && (e == "G" || e == "B" || e == "M" || e == "A" || e == "P" || e == "V") {
 					_ = c
 					s.Register(b)
 				}
@@ -203,7 +238,7 @@ func genC06(env *core.Env, emit func(core.Case)) {
 			case readInspect && isHello2 && armed:
 				readInspect = false
 				cls := classOf[e]
-				if (e == "G" || e == "B" || e == "M" || e == "A") && rctx != ctx {
+				if (e == "G" || e == "B" || e == "M" || e == "A" || e == "P") && rctx != ctx { // V is refused before any decryption
 					cls = "decrypt"
 				}
 				if cls == "" { // acceptable second hello
@@ -252,4 +287,101 @@ func genC06(env *core.Env, emit func(core.Case)) {
 	}
 	rec(nil)
 	env.Exhaustive(fmt.Sprintf("all histories of length <= %d over a 15-letter alphabet after an accepted first hello (and <= %d after a passed-through one)", L, min(L, 3)))
+}
+
+// retryCase is one "hello, HelloRetryRequest, second hello" history with an ill-formed (or, kind G,
+// well-formed) second hello; used by the C04 and C08 campaigns as well.
+type retryCase struct {
+	Kind   string // G good | P outer SNI changed | V outer without TLS 1.3 | N no ECH ext | I config id | S suite | E enc | B corrupted payload | M inner SNI | A inner ALPN
+	Class  string // "" (accepted) | illegal | missing | decrypt
+	Keys   []ech.Key
+	First  []byte
+	HRR    []byte
+	Second []byte
+}
+
+func retryCases(r *rand.Rand) []retryCase {
+	key := gen.NewKey(r, uint8(r.IntN(256)), "public.example", gen.AllSuites)
+	suite := gen.AllSuites[r.IntN(3)]
+	o := gen.PlanOpts{NOuterOpaque: 2, NInnerOpaque: 1, MaxExtLen: 20, Padding: 4, SIDLen: 32, RefMask: uint64(r.IntN(4)), MarkerPos: r.IntN(3), InnerName: "inner.example", ALPN: []string{"h2", "http/1.1"}, PublicName: "public.example"}
+	plan := gen.Plan(r, o)
+	hrr := gen.ServerHelloRecord(r, true, plan.OuterBase.SID)
+	var out []retryCase
+	classOf := map[string]string{"G": "", "P": "illegal", "V": "illegal", "N": "missing", "I": "illegal", "S": "illegal", "E": "illegal", "B": "decrypt", "M": "illegal", "A": "illegal"}
+	for _, kind := range []string{"G", "P", "V", "N", "I", "S", "E", "B", "M", "A"} {
+		s1 := gen.Seal(plan.OuterBase, 1, key, suite, plan.Enc.Body(), nil, 0x0301)
+		e2 := *plan.Enc
+		e2.Random = gen.RandBytes(r, 32)
+		e2.Exts = slices.Clone(e2.Exts)
+		base2 := *plan.OuterBase
+		base2.Exts = slices.Clone(base2.Exts)
+		switch kind {
+		case "M":
+			for i, e := range e2.Exts {
+				if e.Type == 0 {
+					e2.Exts[i] = gen.SNI("changed.example")
+				}
+			}
+		case "A":
+			for i, e := range e2.Exts {
+				if e.Type == 16 {
+					e2.Exts[i] = gen.ALPN("h2")
+				}
+			}
+		case "P":
+			for i, e := range base2.Exts {
+				if e.Type == 0 {
+					base2.Exts[i] = gen.SNI("elsewhere.example")
+				}
+			}
+		case "V":
+			for i, e := range base2.Exts {
+				if e.Type == 43 {
+					base2.Exts[i] = gen.Versions(0x0303, 0x0302)
+				}
+			}
+		}
+		s2 := gen.Seal(&base2, 1, key, suite, e2.Body(), s1.Sender, 0x0303)
+		second := s2.Rec
+		edit := func(f func(e *gen.ECHOuter)) []byte {
+			h, _, _ := gen.ParseRecord(s2.Rec)
+			e, i := gen.FindECH(h)
+			f(e)
+			h.Exts[i] = gen.Ext{Type: 0xfe0d, Data: e.Data()}
+			return h.Record(0x0303)
+		}
+		switch kind {
+		case "I":
+			second = edit(func(e *gen.ECHOuter) { e.ConfigID++ })
+		case "S":
+			second = edit(func(e *gen.ECHOuter) { e.AEAD = e.AEAD%3 + 1 })
+		case "E":
+			second = edit(func(e *gen.ECHOuter) { e.Enc = gen.RandBytes(r, 32) })
+		case "B":
+			second = edit(func(e *gen.ECHOuter) { e.Payload = slices.Clone(e.Payload); e.Payload[len(e.Payload)/2] ^= 0x40 })
+		case "N":
+			h, _, _ := gen.ParseRecord(s2.Rec)
+			_, i := gen.FindECH(h)
+			h.Exts = slices.Delete(h.Exts, i, i+1)
+			second = h.Record(0x0303)
+		}
+		out = append(out, retryCase{Kind: kind, Class: classOf[kind], Keys: echKeys(key), First: s1.Rec, HRR: hrr, Second: second})
+	}
+	return out
+}
+
+// runRetryCase drives one retryCase through a session and reports what happened to the second hello.
+func runRetryCase(rc retryCase, readSize int) (s *connh.Sess, first connh.NewRes, rd connh.IORes) {
+	s = connh.NewSess(rc.Keys)
+	s.Register(rc.First)
+	s.Register(rc.Second)
+	first = s.New(oneChunk(rc.First), "eof")
+	if first.Err != "-" || !first.Accepted {
+		return
+	}
+	s.Read(70000)
+	s.Write(rc.HRR)
+	s.Feed([][]byte{rc.Second}, "eof")
+	rd = s.Read(readSize)
+	return
 }
